@@ -145,8 +145,10 @@ CHECKS['C02'] = {
             'Variance; pdf/pmf non-negative under constructor invariants (interval domain, reported only when proved); overriding ln_pdf == ln(pdf) by '
             'log-normalisation; named constants equal what their name states; the Poisson factorial is formed consistently in pmf and sampler. '
             'The closed forms of pdf/pmf, mean and variance of the 13 univariate laws are compared with a table of textbook formulas by identity '
-            'testing of the extracted expression (39 instances, grid includes overflow regimes); piecewise forms whose branch guards the extraction loses, '
-            'total mass as an integral and MVN are not decided.',
+            'testing of the extracted expression (39 instances; alternatives of several return sites carry their dominating comparisons, evaluation '
+            'follows IEEE arithmetic, the grid includes overflow regimes, far tails and points outside the support); the multivariate normal pdf and '
+            'ln_pdf are brought to a log-linear normal form over {d ln 2pi, ln det, quadratic form}. Total mass as an integral and the MVN '
+            'quadratic form\'s value are not decided.',
     'design_ref': 'DESIGN.md 4.2, 3 (E-SYM, E-GRD support-guard, E-ABS, E-TAB)',
     'note': 'E-SYM is V-sound only (a conflict refutes homogeneity); assumes no cancellation invisible to the algebra. Seeds in cva/props/c02.py.',
     'technique': 'dimension (homogeneity) type inference over abstractly-interpreted closed forms + identity testing of extracted closed forms against a formula table + control-dependence guard rules + interval abstract interpretation',
